@@ -10,6 +10,7 @@ CONSTANTS
   MinV = {1, 3}
   MaxV = {1, 3}
   Pairs = {13, 31, 11, 22}
+  APairs = {31, 13}
   Depth = 5
 CONSTRAINT Bound
 INVARIANT Emit1
